@@ -184,7 +184,13 @@ class Probe(SourceProxy):
         if not getattr(self, "_live", False):
             return
         self._live = False
-        self._ol.__exit__(None, None, None)
+        try:
+            self._ol.__exit__(None, None, None)
+        except BaseException:
+            # Nothing was undone (e.g. called from another context than the
+            # one the probe was activated in): it can be attempted again
+            self._live = True
+            raise
         global_probes.remove(self)
         self._uninstall_tooling()
 
